@@ -241,6 +241,8 @@ def random_frames(rng, budget):
         s = rng.choice((1, 2, 2, 4, 8))
         sides = [d for d in (8, 16, 24, 32, 48, 64) if d % s == 0 and (d // s) * (d // s) <= 1024 or d == 8]
         H, W = rng.choice(sides), rng.choice(sides)
+        if s > 1 and rng.random() < 0.3:         # sizes the stride does not divide: the grid is still 0, s, 2s, ... < size
+            H, W = rng.choice((H, 10, 11, 18, 27, 37)), rng.choice((W, 9, 13, 22, 30, 45))
         nodes = rng.randint(2, 6)
         edges = random_tree_edges(rng, nodes)
         A = rng.choice((1, 1, 2, 3, 4, 5))
@@ -374,9 +376,9 @@ def run(tier, seed):
         rule="exhaustive: every (source, destination) pair on the 1/2-px lattice of [-1,5]^2 (+ a missing point) around a 4x4 image x strides {1,2} "
              "(set equality with the design model's space checked by TLC); all {visible, NaN, x-only-NaN}^6 patterns of 2 animals x 3 nodes x 2 edges; seeded random frames otherwise.  "
              "non-trivial = distinct one-animal calls with at least one edge of length >= 1 px whose field is not identically zero.  "
-             "Excluded / unspecified and said so: edges of length in (0, 1) px are not judged (the implementation clamps the projection denominator at 1 px^2); "
-             "an animal with a node in the image but none strictly inside the grid extent (0, last grid coordinate) - margin strip, x = 0, y = 0 - may contribute either its field or zero; "
-             "image sides that are not multiples of the stride; the multi-animal field is judged against the sum of the separate one-animal calls.")
+             "Edges of any positive length are judged (sub-pixel edges since fix 15a146f); image sides that are not multiples of the stride are included in the random frames.  "
+             "Unspecified and said so: an animal with a node in the image but none strictly inside the grid extent (0, last grid coordinate) - margin strip, x = 0, y = 0 - may contribute either its field or zero; "
+             "the multi-animal field is judged against the sum of the separate one-animal calls.")
     res.assumptions += [
         "inputs lie on the 1/2-px lattice within [-2 px, side + 2 px] (exact in float32; all cross products < 2^31)",
         "values projected as round(v * 10^4); parallel: |px*vy - py*vx| <= |vx| + |vy| quanta (1/2 quantum of rounding per component); magnitude round(hypot * 10^4) re-checked by TLC against the components",
